@@ -130,11 +130,14 @@ Definition join_tol : F := fofZ o 1 / fofZ o 1000000.          (* tol=1e-6 *)
 Definition join_rot (v1 : vec) (n1 : F) (v2 : vec) (n2 : F) (ov : vec) : mat F :=
   rot_from_vectors o join_tol v2 n2 (vopp o v1) n1 ov.
 Definition join_shift (v1 : vec) (n1 d : F) : vec := vdiv o (vscale o d v1) n1.
-Definition place_B (v1 : vec) (n1 : F) (v2 : vec) (n2 : F) (ov : vec) (d : F) (r2 : vec) (twist : option (F * F)) (x : vec) : vec :=
-  let y := vadd o (vm o (vsub o x r2) (join_rot v1 n1 v2 n2 ov)) (join_shift v1 n1 d) in
-  match twist with
+Definition join_twist (v1 : vec) (n1 : F) (twist : option (F * F)) : option (mat F) :=
+  match twist with None => None | Some (s, c) => Some (rot_from_axis o v1 n1 s c) end.
+(* R = join_rot ..., t = join_shift ..., T = join_twist ... (computed once per call, applied to every row) *)
+Definition place_B (R : mat F) (t : vec) (T : option (mat F)) (r2 x : vec) : vec :=
+  let y := vadd o (vm o (vsub o x r2) R) t in
+  match T with
   | None => y
-  | Some (s, c) => vm o y (rot_from_axis o v1 n1 s c)
+  | Some M => vm o y M
   end.
 Definition place_A (r1 x : vec) : vec := vsub o x r1.
 
@@ -175,8 +178,10 @@ Definition join (A B : frag F) (s1 s2 : asel) (op : jopts F) (w : jwit F) : opti
             let v2 := vsub o p2 r2 in
             let d := bond_len op in
             let c1 := map (place_A r1) (mask_rows (loc a1 (fr_atoms A)) (fr_coords A)) in
-            let c2 := map (place_B v1 (w_n1 w) v2 (w_n2 w) (w_ov w) d r2 (w_twist w))
-                          (mask_rows (loc a2 (fr_atoms B)) (fr_coords B)) in
+            let R := join_rot v1 (w_n1 w) v2 (w_n2 w) (w_ov w) in
+            let t := join_shift v1 (w_n1 w) d in
+            let T := join_twist v1 (w_n1 w) (w_twist w) in
+            let c2 := map (place_B R t T r2) (mask_rows (loc a2 (fr_atoms B)) (fr_coords B)) in
             Some (mkFrag atoms (kept ++ [mkBond a1r a2r (o_nb op)]) (c1 ++ c2)
                          (join_charge (o_charge op) (fr_charge A) (fr_charge B))
                          (join_mult (o_mult op) (fr_mult A) (fr_mult B)))
